@@ -226,7 +226,11 @@ def run(tier, seed):
         broken.append('correspondence op `sel` diverges on %d selectors; first %r\n impl=%s\n model=%s' % (
             res['n_mismatch'], c[0], e[:300], g[:300]))
     findings.probe_known(lambda f: bool(oracle((f['input'], NSMAP, tuple(f['expected'])))))
+    # how much of the code the model transcribes do the correspondence inputs execute (a measurement, not a verdict)
+    _sample = cases[::max(1, len(cases) // 2500)]
+    coverage_lines = lib.modelled_code_coverage([('css_parser.css.selector', 'Selector._setSelectorText')], [lambda c=c: py_of(c) for c in _sample], limit=2505)
     coverage = {
+        'modelled_code_line_coverage': coverage_lines,
         'evaluations': res['n'] + res2['n'],
         'distinct_nontrivial': len(set(c[0] for c in cases)),
         'rule': 'selector derivations from the level-3 grammar (type/universal with every namespace form, id, class, '
